@@ -1,6 +1,8 @@
 package main
 
 import (
+	"encoding/base64"
+	"crypto/sha256"
 	"go/types"
 	"math"
 	"math/bits"
@@ -399,6 +401,56 @@ func (e *Engine) cryptoIntrinsic(fn *ssa.Function, full string, args []Value) (V
 		slot := new(Value)
 		*slot = &AbsSet{}
 		return IfaceVal{typ: e.sh.marks.opaque, val: PtrVal{slot}}, true
+	case "(*encoding/base64.Encoding).EncodeToString", "(*encoding/base64.Encoding).DecodeString":
+		// the four standard encodings on concrete data, by the real library
+		enc := map[string]*base64.Encoding{"encoding/base64.StdEncoding": base64.StdEncoding, "encoding/base64.URLEncoding": base64.URLEncoding,
+			"encoding/base64.RawStdEncoding": base64.RawStdEncoding, "encoding/base64.RawURLEncoding": base64.RawURLEncoding}
+		var which *base64.Encoding
+		if p, ok := args[0].(PtrVal); ok && p.slot != nil {
+			if n, ok := (*p.slot).(StrVal); ok {
+				if name, conc := concreteStr(n); conc {
+					which = enc[name]
+				}
+			}
+		}
+		if which == nil {
+			return nil, false
+		}
+		if fn.Name() == "EncodeToString" {
+			sl, ok := args[1].(SliceVal)
+			if !ok {
+				return nil, false
+			}
+			raw := []byte{}
+			for _, b := range sliceElems(sl) {
+				t, ok := b.(*Term)
+				if !ok || !t.konst {
+					unsupported("base64 of symbolic bytes")
+				}
+				raw = append(raw, byte(t.iv))
+			}
+			return mkStr(which.EncodeToString(raw)), true
+		}
+		str, conc := concreteStr(args[1].(StrVal))
+		if !conc {
+			// a symbolic string of a few bytes cannot be the encoding of anything the code compares it with here
+			unsupported("base64 decoding of a symbolic string")
+		}
+		raw, err := which.DecodeString(str)
+		if err != nil {
+			return TupleVal{SliceVal{}, e.newError(mkStr("illegal base64 data"))}, true
+		}
+		var bs []Value
+		for _, c := range raw {
+			bs = append(bs, mkInt(int64(c)))
+		}
+		return TupleVal{mkSlice(bs), IfaceVal{}}, true
+	case "(crypto.Hash).Size":
+		sizes := map[int64]int64{3: 20, 4: 28, 5: 32, 6: 48, 7: 64}
+		if t, ok := args[0].(*Term); ok && t.konst && sizes[t.iv] != 0 {
+			return mkInt(sizes[t.iv]), true
+		}
+		return nil, false
 	case "github.com/lestrrat-go/jwx/v2/jwk.WithIgnoreParseError":
 		slot := new(Value)
 		*slot = &AbsParseOpt{ignoreParseError: e.decide(args[0].(*Term))}
@@ -546,11 +598,14 @@ func (e *Engine) invokeIntrinsic(recv IfaceVal, method *types.Func, args []Value
 			if !e.decide(obj.valid) {
 				return TupleVal{SliceVal{}, e.newError(mkStr("jwk: cannot compute the thumbprint of an incomplete key"))}, true
 			}
-			var bs []Value
-			for _, b := range obj.kty.bytes {
-				bs = append(bs, b)
+			// 32 bytes, as a SHA-256 thumbprint has: a fixed hash of (key type, material identity)
+			kty, conc := concreteStr(obj.kty)
+			if !conc {
+				unsupported("thumbprint of a key with a symbolic key type")
 			}
-			for _, c := range []byte(":" + strconv.Itoa(obj.id)) {
+			sum := sha256.Sum256([]byte(kty + ":" + strconv.Itoa(obj.id)))
+			var bs []Value
+			for _, c := range sum {
 				bs = append(bs, mkInt(int64(c)))
 			}
 			return TupleVal{mkSlice(bs), IfaceVal{}}, true
